@@ -908,7 +908,15 @@ func bufWriteSeq(call *ssa.Call, curF *types.Var, cbyte ssa.Value) ([]string, bo
 	case "WriteByte":
 		return []string{symb(call.Call.Args[1])}, true
 	case "WriteRune":
-		return []string{symb(call.Call.Args[1])}, true
+		// a rune is written in its UTF-8 encoding: the input byte converted to a rune comes out as two bytes
+		// when it is ≥ 0x80, so this is not "the byte c"
+		if a := symb(call.Call.Args[1]); a == "c" {
+			return []string{"utf8(rune(c))"}, true
+		} else if k, ok := constInt(call.Call.Args[1]); ok && k >= 0x80 {
+			return []string{fmt.Sprintf("utf8(%d)", k)}, true
+		} else {
+			return []string{a}, true
+		}
 	case "Write":
 		// slice of a fresh array with element stores
 		sl, ok := call.Call.Args[1].(*ssa.Slice)
